@@ -407,7 +407,10 @@ pub fn optimum_poling_period(
     1e-12,
   );
 
-  if max_period < period || period < min_period {
+  // a result sitting on the upper bound is the bound itself, not a zero of the
+  // mismatch: no period up to the crystal length phase-matches
+  let at_upper_bound = period >= max_period * (1. - 1e-9);
+  if at_upper_bound || max_period < period || period < min_period {
     Err(SPDCError::new(IMPOSSIBLE_POLING_PERIOD.to_string()))
   } else {
     Ok(sign * period * M)
